@@ -22,7 +22,7 @@ def _fn(mod, name):
 # ---------------------------------------------------------------------------------------------- integer expressions over n, m, k (Nat)
 def _nat(e, names):
     """Python int expression -> Lean Nat expression (truncated subtraction)"""
-    if isinstance(e, ast.Name) and e.id in names: return e.id
+    if isinstance(e, ast.Name) and e.id in names: return names[e.id] if isinstance(names, dict) else e.id
     if isinstance(e, ast.Constant) and isinstance(e.value, int) and not isinstance(e.value, bool) and e.value >= 0: return f'({e.value} : Nat)'
     if isinstance(e, ast.Call) and ast.unparse(e.func) == 'int' and len(e.args) == 1 and not e.keywords: return _nat(e.args[0], names)
     if isinstance(e, ast.BinOp):
@@ -66,6 +66,12 @@ def _radial(R):
     lp = loops[0]
     if not (isinstance(lp.iter, ast.Call) and ast.unparse(lp.iter.func) == 'range' and len(lp.iter.args) == 1 and ast.unparse(lp.target) == 'k'):
         raise Refuse('R: loop is not `for k in range(…)`')
+    # loop-invariant integer temporaries assigned before the loop (`p = n//2 + m//2`, …) are substituted
+    names = {x: x for x in names}
+    for st in top.orelse:
+        if st is lp: break
+        if isinstance(st, ast.Assign) and len(st.targets) == 1 and isinstance(st.targets[0], ast.Name) and ast.unparse(st.value).replace(' ', '') != 'np.zeros(rho.shape)':
+            names[st.targets[0].id] = _nat(st.value, names)
     count = _nat(lp.iter.args[0], names)
     asg = [s for s in lp.body if isinstance(s, ast.Assign)]; acc = [s for s in lp.body if isinstance(s, ast.AugAssign)]
     if len(asg) != 1 or len(acc) != 1 or len(lp.body) != 2: raise Refuse('R: loop body changed')
